@@ -1,7 +1,7 @@
 #!/bin/bash
 # usage: try_patch.sh <patch.diff> [prop ...]   — dev helper: run checks against a scratch worktree with the patch applied
 set -u
-p=$1; shift
+p=$(realpath $1); shift
 wt=/tmp/try.$$; trap "git -C /repo worktree remove --force $wt 2>/dev/null" EXIT
 git -C /repo worktree add -q --detach $wt HEAD || exit 3
 if ! git -C $wt apply "$p"; then echo "PATCH DOES NOT APPLY"; git -C /repo worktree remove --force $wt; exit 3; fi
